@@ -433,6 +433,12 @@ def run_driver(ctx, focus):
     with rebind([("gemseo.algos.base_driver_library", "time", clock.time)]):
         for e in range(n_exec):
             with t.frame("execute"):
+                if e > 0 and not reset and not cfg["doe"] and lib_name not in COMPOSITE and t.flag(0.25, "history_cleared_counter_kept"):
+                    # the user clears the history between two executions and keeps the iteration counter
+                    # (problem.database.clear(), or a scenario with clear_history_before_execute): the counter is then
+                    # ahead of the database
+                    problem.database.clear()
+                    ctx.probe("history_cleared_between_executions")
                 n_before = len(problem.database)
                 pts_before = {n: len(tr.points) for n, tr in tracked.items()}
                 counter_before = problem.evaluation_counter.current
